@@ -159,6 +159,18 @@ fn handle(kind: &str, f: &[String]) -> String {
                 Err(k) => format!("ERR\t{k}"),
             }
         }
+        ("textattr", 2) => match verif::text_attr(&unhex_s(&f[0]), &parse_attrs(&f[1])) {
+            Ok((orig, texts)) => format!(
+                "OK\t{}\t{}",
+                show_attrs(&orig),
+                texts
+                    .iter()
+                    .map(|(n, a, c)| format!("{}|{}|{}", hex(n.as_bytes()), show_attrs(a), hex(c.as_bytes())))
+                    .collect::<Vec<_>>()
+                    .join(";")
+            ),
+            Err(k) => format!("ERR\t{k}"),
+        },
         ("evalattr", 3) => {
             let (r, w) = verif::eval_attr(
                 &unhex_s(&f[0]),
